@@ -82,7 +82,7 @@ func fnIdx(f string) int {
 	return 0
 }
 
-func concrete(s *asrc, idx int, seed int64, drop, keep []string) *profile.Profile {
+func concrete(s *asrc, idx int, seed int64, drop, keep []string, unsym bool) *profile.Profile {
 	m := vlib.AMap{Build: "B01", File: "exe", Start: 16, Size: 8}
 	fn := map[string]vlib.AFn{}
 	for i, n := range fnNames {
@@ -100,12 +100,32 @@ func concrete(s *asrc, idx int, seed int64, drop, keep []string) *profile.Profil
 	c := vlib.NewConc(seed)
 	c.StrMode = 0
 	c.ProfIdx = idx
+	if unsym {
+		c.MapBase = 0x400000 // unsymbolized sources must agree on the addresses
+	}
 	p := c.Profile(vlib.AProf{ST: []vlib.AVT{{T: "s1", U: "count"}, {T: "s2", U: "count"}}, Samples: ss})
 	// the profile's own frame-dropping rules: plain alternations, anchored by RemoveUninteresting
 	p.DropFrames = strings.Join(drop, "|")
 	p.KeepFrames = strings.Join(keep, "|")
+	if unsym {
+		// an address-only profile: the names arrive with the Symbolizer plug-in
+		addrMu.Lock()
+		for _, l := range p.Location {
+			if len(l.Line) > 0 && l.Line[0].Function != nil {
+				addrName[l.Address] = l.Line[0].Function.Name
+			}
+			l.Line = nil
+		}
+		addrMu.Unlock()
+		p.Function = nil
+	}
 	return p
 }
+
+var (
+	addrMu   sync.Mutex
+	addrName = map[uint64]string{}
+)
 
 type line struct {
 	text string // what is typed / the flag
@@ -194,9 +214,31 @@ func (rc *recorder) add(e event) {
 	rc.mu.Unlock()
 }
 
-type symRec struct{ rc *recorder }
+type symRec struct {
+	rc    *recorder
+	unsym bool
+}
 
 func (s symRec) Symbolize(mode string, srcs plugin.MappingSources, p *profile.Profile) error {
+	if s.unsym {
+		// play the symbolizer: one function per address, as the plug-in contract allows
+		fns := map[string]*profile.Function{}
+		addrMu.Lock()
+		for _, l := range p.Location {
+			if len(l.Line) > 0 {
+				continue
+			}
+			name := addrName[l.Address]
+			f := fns[name]
+			if f == nil {
+				f = &profile.Function{ID: uint64(len(p.Function) + 1), Name: name, SystemName: name, Filename: "zz.x"}
+				fns[name] = f
+				p.Function = append(p.Function, f)
+			}
+			l.Line = []profile.Line{{Function: f, Line: 1}}
+		}
+		addrMu.Unlock()
+	}
 	e := event{Ev: "sym", Samples: []asample{}}
 	for _, sm := range p.Sample {
 		var st []string
@@ -346,7 +388,8 @@ func oneRun(id int, r *vlib.Rand) {
 	for i := range bases {
 		byName[bases[i].Name] = &bases[i]
 	}
-	ctxOf := map[string]interface{}{"srcs": srcs, "bases": bases, "drop": drop, "keep": keep}
+	unsym := r.Intn(3) == 0
+	ctxOf := map[string]interface{}{"srcs": srcs, "bases": bases, "drop": drop, "keep": keep, "unsymbolized": unsym}
 	rc := &recorder{}
 	rc.add(event{Ev: "config", Srcs: srcs, Bases: bases, Drop: drop, Keep: keep})
 	cseed := int64(r.Intn(1000))
@@ -363,7 +406,7 @@ func oneRun(id int, r *vlib.Rand) {
 		if src[0] == 'b' {
 			idx += 3
 		}
-		return concrete(s, idx, cseed+int64(idx), drop, keep), nil
+		return concrete(s, idx, cseed+int64(idx), drop, keep, unsym), nil
 	}
 	mode := []string{"interactive", "interactive", "cli", "web"}[r.Intn(4)]
 	cli := mode != "interactive"
@@ -415,7 +458,7 @@ func oneRun(id int, r *vlib.Rand) {
 		args = append(args, flags...)
 		args = append(args, "-output=out0")
 		args = append(args, srcArgs...)
-		res = vdrv.Run(vdrv.Opts{Args: args, Fetch: fetch, Sym: symRec{rc}})
+		res = vdrv.Run(vdrv.Opts{Args: args, Fetch: fetch, Sym: symRec{rc, unsym}})
 		outOf[len(lines)-1] = "out0"
 	case "web":
 		flags, kept, _ := flagsOf()
@@ -450,7 +493,7 @@ func oneRun(id int, r *vlib.Rand) {
 		args := append(append([]string{}, common...), flags...)
 		args = append(args, "-http=localhost:18771", "-no_browser")
 		args = append(args, srcArgs...)
-		res = vdrv.Run(vdrv.Opts{Args: args, Fetch: fetch, Sym: symRec{rc},
+		res = vdrv.Run(vdrv.Opts{Args: args, Fetch: fetch, Sym: symRec{rc, unsym},
 			HTTP: func(a *plugin.HTTPServerArgs) error {
 				for i := range lines {
 					if lines[i].ev.Ev != "report" {
@@ -482,7 +525,7 @@ func oneRun(id int, r *vlib.Rand) {
 			typed = append(typed, t)
 		}
 		args := append(append([]string{}, common...), srcArgs...)
-		res = vdrv.Run(vdrv.Opts{Args: args, Fetch: fetch, Sym: symRec{rc}, Lines: typed})
+		res = vdrv.Run(vdrv.Opts{Args: args, Fetch: fetch, Sym: symRec{rc, unsym}, Lines: typed})
 	}
 	ctxOf["lines"] = describe(lines)
 	ctxOf["mode"] = mode
@@ -589,5 +632,5 @@ func main() {
 	for i := 0; i < n; i++ {
 		oneRun(i, r)
 	}
-	run.Finish("whole runs of driver.PProf observed at the plug-in boundaries: 1-3 sources and 0-2 -base sources (each failing with probability 1/5), profile-level drop/keep frame rules, x command-line mode, interactive sessions of 1-5 lines (focus / ignore / sample_index / relative_percentages assignments, top / traces reports with per-command arguments, rejected and ignored lines) or a web server answering /top requests with per-request options, concretised with varying id layouts; every boundary event validated by TLC against the machine of Pprof.tla; non-trivial = distinct (mode, sources, lines)")
+	run.Finish("whole runs of driver.PProf observed at the plug-in boundaries: 1-3 sources and 0-2 -base sources (each failing with probability 1/5), profile-level drop/keep frame rules, sources that are symbolized or address-only (the names then come from the Symbolizer plug-in, before the drop rules apply), x command-line mode, interactive sessions of 1-5 lines (focus / ignore / sample_index / relative_percentages assignments, top / traces reports with per-command arguments, rejected and ignored lines) or a web server answering /top requests with per-request options, concretised with varying id layouts; every boundary event validated by TLC against the machine of Pprof.tla; non-trivial = distinct (mode, sources, lines)")
 }
